@@ -227,7 +227,8 @@ func runRender(raw json.RawMessage) (res *Result, err error) {
 // remove it from the end of a rendering and the model trims ASCII only;
 // inside a text they are fine.
 var renderStrings = []string{"a", "bc", "x y", "", "é", " pad ", "a\tb", "日本", "k", "cn", "uid",
-	" ", "a  b", "\tq", "z ", "ä ö", "naïve café", "a b", "x　y", "l1\nl2", "𝛑r²", "AND", "(p)", "a,b", "1"}
+	" ", "a  b", "\tq", "z ", "ä ö", "naïve café", "a b", "x　y", "l1\nl2", "𝛑r²", "AND", "(p)", "a,b", "1",
+	"ou=People\\", "a\\ b", "\\", "x\\\\", "t\\\tu", "q\\  r", "\"q\"", "'s'", "<v>", "[w]", "((p))", "\"", "<<x>>"}
 
 var renderSyms = []string{"", "", "&", "||", "é", "|", "!"}
 var renderDelims = []string{"", "", ",", " ", ";;", ", "}
